@@ -262,7 +262,7 @@ func (e *Env) vcmd(cwd string, f []string) error {
 	// the task key is built from the final input paths (as the reference model does)
 	finalIn := map[string]string{}
 	for port, p := range insP {
-		finalIn[port] = filepath.Clean(filepath.Join(cwd, p))
+		finalIn[port] = filepath.Clean(resolve(cwd, p))
 	}
 	key := taskKey(proc, finalIn, params)
 	e.CmdByKey[key] = e.lastCmd
@@ -273,7 +273,7 @@ func (e *Env) vcmd(cwd string, f []string) error {
 	}
 	ins := map[string]string{}
 	for port, p := range insP {
-		d, err := vs.FSReadFile(filepath.Join(cwd, p))
+		d, err := vs.FSReadFile(resolve(cwd, p))
 		if err != nil {
 			return fmt.Errorf("vcmd %s: cannot read %s: %v", proc, p, err)
 		}
@@ -281,7 +281,7 @@ func (e *Env) vcmd(cwd string, f []string) error {
 	}
 	outPaths := map[string]string{}
 	for port, p := range outs {
-		outPaths[port] = filepath.Join(cwd, p)
+		outPaths[port] = resolve(cwd, p)
 	}
 	if err := e.writeOutputs(proc, key, outPaths, ins, params); err != nil {
 		return err
@@ -290,11 +290,12 @@ func (e *Env) vcmd(cwd string, f []string) error {
 	return nil
 }
 
-var vjoinRe = regexp.MustCompile(`^vjoin (\S+) \[(.*)\]$`)
+var vjoinRe = regexp.MustCompile(`^vjoin (\S+) (\[.*\])$`)
+var vjoinGroupRe = regexp.MustCompile(`\[([^\]]*)\]`)
 
-// vjoin OUT [JOINED]: the consumer of a joined in-port. It notes the raw argument string it
-// was given, checks that every member resolves from its working directory (when the
-// placeholder carries no relocating modifier) and writes the members' contents to OUT.
+// vjoin OUT [JOINED] [JOINED2]: the consumer of joined in-ports. It notes the raw argument
+// string of every joined port, checks that every member resolves from its working directory
+// (when the placeholder carries no relocating modifier) and writes the members' contents to OUT.
 func (e *Env) vjoin(cwd string, part string) error {
 	m := vjoinRe.FindStringSubmatch(part)
 	if m == nil {
@@ -302,29 +303,50 @@ func (e *Env) vjoin(cwd string, part string) error {
 	}
 	ps := e.Spec.proc("j")
 	vs.Event("S:j[]")
-	vs.Note("joined:" + m[2])
 	content := ""
-	if ps != nil && ps.JoinMod == "" && m[2] != "" {
-		for _, p := range strings.Split(m[2], ps.JoinSep) {
-			d, err := vs.FSReadFile(filepath.Join(cwd, p))
-			if err != nil {
-				return fmt.Errorf("vjoin: member %q does not resolve from %s: %v", p, cwd, err)
-			}
-			content += string(d) + "\n"
+	groups := vjoinGroupRe.FindAllStringSubmatch(m[2], -1)
+	for gi, g := range groups {
+		raw := g[1]
+		sep := ps.JoinSep
+		port := "x"
+		if gi == 1 {
+			sep, port = ps.JoinSep2, "y"
 		}
-	} else if ps != nil {
+		vs.Note("joined:" + port + ":" + raw)
+		if ps.JoinMod == "" && raw != "" {
+			for _, p := range strings.Split(raw, sep) {
+				d, err := vs.FSReadFile(resolve(cwd, p))
+				if err != nil {
+					return fmt.Errorf("vjoin: member %q does not resolve from %s: %v", p, cwd, err)
+				}
+				content += string(d) + "\n"
+			}
+		}
+	}
+	if ps.JoinMod != "" {
 		content = refContent(e.Spec, "joined.txt")
 	}
-	if err := vs.FSWriteFile(filepath.Join(cwd, m[1]), []byte(content), 0644); err != nil {
+	if err := vs.FSWriteFile(resolve(cwd, m[1]), []byte(content), 0644); err != nil {
 		return err
 	}
 	vs.Event("E:j[]")
 	return nil
 }
 
+// resolve a path the way a shell running in cwd would
+func resolve(cwd, p string) string {
+	if filepath.IsAbs(p) {
+		return p
+	}
+	return filepath.Join(cwd, p)
+}
+
 // makeSources creates the source files of a spec in the current directory (plain os calls:
 // this happens before the execution starts).
 func makeSources(w *WSpec) {
+	for _, d := range w.MkDirs {
+		os.MkdirAll(d, 0777)
+	}
 	for _, f := range w.SourceFiles() {
 		os.MkdirAll(filepath.Dir(f), 0777)
 		os.WriteFile(f, []byte(f), 0644)
